@@ -586,20 +586,32 @@ def mir_config_diff():
 
 
 def mir_functions(prop):
-    """functions of /repo reachable in the harness modules, for the evidence ('functions encoded').
-    Cheap approximation: twofloat paths named in the property's harness sources."""
-    names = set()
+    """functions of /repo named by the property's harness sources (for the evidence field
+    'functions_encoded'): identifiers used as calls/paths in the harness modules that are
+    defined as `fn` in /repo/src; operator impls are listed by their trait when used via ops.rs"""
+    defined = set()
+    for root, _, files in os.walk(os.path.join(REPO, "src")):
+        for fn in files:
+            if fn.endswith(".rs"):
+                for m in re.finditer(r"\bfn\s+([a-z_][a-z0-9_]*)", open(os.path.join(root, fn)).read()):
+                    defined.add(m.group(1))
+    used = set()
+    pid = prop.lower()
     for fn in os.listdir(SRC):
         if not fn.endswith(".rs"):
             continue
         txt = open(os.path.join(SRC, fn)).read()
-        if ("id=%s " % prop) not in txt:
+        if fn == "gen_cells.rs":
+            txt = "\n".join(l for l in txt.splitlines() if "crate::" in l or "id=%s" % prop in l)
+        elif fn[:3] != pid and fn not in ("ops.rs", "acc.rs"):
             continue
-        for m in re.finditer(r"\b(?:TwoFloat::|twofloat::)([A-Za-z0-9_:]+)", txt):
-            names.add(m.group(0))
-        for m in re.finditer(r"\.(\w+)\(", txt):
-            names.add("." + m.group(1))
-    return sorted(names)
+        for m in re.finditer(r"(?:\.|::)([a-z_][a-z0-9_]*)\s*\(", txt):
+            if m.group(1) in defined:
+                used.add(m.group(1))
+        for tr in ("Add", "Sub", "Mul", "Div", "Rem", "Neg", "AddAssign", "SubAssign", "MulAssign", "DivAssign", "RemAssign", "PartialEq", "PartialOrd"):
+            if re.search(r"ops::%s<|cmp::%s" % (tr, tr), txt):
+                used.add("impl " + tr)
+    return sorted(used)
 
 
 def repo_state():
@@ -896,6 +908,7 @@ def main():
             "functions_encoded": mir_functions(prop),
             "solver_s_total": round(sum(r["solver_s"] for r in results.values()), 1),
             "cpu_wall_s_total": round(sum(r["wall_s"] for r in results.values()), 1),
+            "known_findings_reported": known_lines,
             "twins_refuted": len([h for h in hs if h["kind"] == "twin" and results.get(h["name"], {}).get("outcome") == "fail"]),
             "repo_state": repo_state(),
             "explanation": "bounded/cell-wise solver-decided claims; see DESIGN.md section 4 for the per-property bounds and what lies outside them",
